@@ -2046,6 +2046,22 @@ fn calibrate(ctl: &Ctl, rep: &mut Report) -> bool {
             probes.push((cfg, v));
         }
     }
+    // failed reconnection attempts while LLGR timers run (LLGR-only peer; GR followed by LLGR)
+    for (cfg, spec, fire) in [
+        (c(0, false, 0b01), CapSpec { mp: 0b11, gr: None, llgr: 0b01 }, false),
+        (c(0b11, true, 0b11), CapSpec { mp: 0b11, gr: Some((0b11, true, 0)), llgr: 0b11 }, true),
+    ] {
+        let mut v = vec![Op::Connect { spec, outcome: ConnOutcome::Full }];
+        ann(&mut v);
+        v.push(Op::Drop { how: DropHow::TcpRst });
+        if fire {
+            v.push(Op::FireRestart);
+        }
+        v.push(Op::Connect { spec, outcome: ConnOutcome::DieAfterOpen });
+        v.push(Op::FireLlgr { fam: 0 });
+        v.push(Op::Connect { spec, outcome: ConnOutcome::DieBeforeOpen });
+        probes.push((cfg, v));
+    }
     let mut real: Vec<Vec<String>> = Vec::new();
     for (cfg, ops) in &probes {
         match exec(ctl, 2, cfg, ops, 7, true) {
